@@ -412,6 +412,10 @@ def contract_a2r(case):
     msg0 = f"align_to_ref seqs={data} ref={ref} scheme={scheme} d={d} e={e}"
     try:
         app = get_app("align_to_ref", ref_seq=ref, score_matrix=S, insertion_penalty=d, extension_penalty=e, moltype=mt)
+        if sum(map(len, seqs)) % 2:
+            # an app object is made to be reused: every second case it has already aligned another collection of the
+            # same names (the sequences reversed) -- the answer must depend on the last input only
+            app(make_unaligned_seqs({k: (v[::-1] or v) for k, v in data.items()}, moltype=mt))
         res = app(make_unaligned_seqs(data, moltype=mt))
         if not hasattr(res, "to_dict") or type(res).__name__ == "NotCompleted":
             return ("fail", "align_to_ref/not-completed", f"{msg0}: {str(res)[:300]}")
@@ -496,6 +500,8 @@ def contract_prog(case):
     pw.HIRSCHBERG_LIMIT = 0 if linear else BIG
     try:
         app = get_app("progressive_align", model=model, indel_rate=rate, indel_length=length, **kw)
+        if sum(map(len, seqs)) % 2:
+            app(make_unaligned_seqs({k: (v[::-1] or v) for k, v in data.items()}, moltype="dna"))   # reused app object
         res = app(make_unaligned_seqs(data, moltype="dna"))
     except Exception as ex:
         return ("fail", f"{tag}/raises/{type(ex).__name__}", f"{msg0}: {type(ex).__name__}: {str(ex)[:200]}")
